@@ -1872,3 +1872,25 @@ def _anyhow_kind(I, a, ci, dt):
 @reg('Adhoc::new', 'Trait::new', 'Boxed::new')
 def _anyhow_kind_new(I, a, ci, dt):
     return Opaque('anyhow', {'ctx': [], 'src': a[1] if len(a) > 1 else None})
+
+
+# ------------------------------------------------------------------ RefCell / Mutex (transparent)
+
+@reg('RefCell::borrow_mut', 'RefCell::borrow', 'RefCell::get_mut', 'Mutex::get_mut')
+def _refcell_borrow(I, a, ci, dt):
+    return a[0]
+
+
+@reg('Mutex::lock')
+def _mutex_lock(I, a, ci, dt):
+    return Ok(a[0])
+
+
+@reg('RefCell::into_inner', 'Mutex::into_inner')
+def _refcell_into_inner(I, a, ci, dt):
+    return a[0]
+
+
+@reg('Arc::try_unwrap', 'Rc::try_unwrap')
+def _rc_try_unwrap(I, a, ci, dt):
+    return Ok(I.load(a[0]))
